@@ -39,7 +39,10 @@ const (
 )
 
 type scenario struct {
-	splitMods int // scopes whose two modifier tables were written as two `modify` directives
+	splitMods  int            // scopes whose two modifier tables were written as two `modify` directives
+	wstats     map[string]int // what the renderer wrote (references, shared blocks, ...)
+	shrinkSeq  int
+	harnessErr error // the harness could not set the case up (never a verdict)
 	tag        string
 	al         *alphabet
 	g          *gen
@@ -87,7 +90,11 @@ func (sc *scenario) load() {
 	}
 	tables := map[int]map[addr]bool{}
 	collectTables(sc.top, tables)
+	blk := blockTables(sc.top)
 	for i, keys := range tables {
+		if blk[i] {
+			continue // written as a top-level table block
+		}
 		t := mx.NewTable(tblname(i))
 		for k := range keys {
 			t.M[sc.al.canon(k)] = []string{"1"}
@@ -96,45 +103,40 @@ func (sc *scenario) load() {
 		sc.registered = append(sc.registered, t.InstName)
 	}
 	chk := mx.NewCheck(sc.tag+"_chk", sc.lg)
-	r := &renderer{g: sc.g, tgtName: tname, tblName: tblname, chkLine: mx.CheckRef(chk)}
+	r := newRenderer(sc.g, sc.tag)
+	r.tgtName, r.tblName, r.chkLine, r.blk = tname, tblname, mx.CheckRef(chk), blk
 	defer mx.CheckUnref(chk)
-	r.pipe(0, sc.top)
-	sc.text = r.sb.String()
-	sc.splitMods = r.splitMods
-	sc.pl, sc.loadErr = mx.BuildPipeline(sc.text, nil)
+	body := r.pipe(sc.top)
+	r.finish()
+	pipeText := strings.Join(body, "\n") + "\n"
+	sc.text = pipeText
+	sc.splitMods, sc.wstats = r.splitMods, r.stats
+	if len(r.blocks) > 0 {
+		// top-level configuration blocks, registered the way maddy.go registers the blocks of maddy.conf
+		blockText := strings.Join(r.blocks, "\n") + "\n"
+		sc.text = blockText + "# ---- the pipeline ----\n" + pipeText
+		names, err := mx.RegisterBlocks(blockText, map[string]interface{}{"hostname": "c04.verif.test"})
+		sc.registered = append(sc.registered, names...)
+		if err != nil {
+			if strings.HasPrefix(err.Error(), "parse:") { // the real parser refused the text
+				sc.loadErr = fmt.Errorf("top-level blocks: %w", err)
+			} else { // name clash, module without factory, ...: a harness problem, never a verdict
+				sc.harnessErr = err
+				sc.loadErr = err
+			}
+			return
+		}
+	}
+	sc.pl, sc.loadErr = mx.BuildPipeline(pipeText, nil)
 }
 
 // collectTables gathers the content of the source_in / destination_in tables from the AST.
 func collectTables(p *pipe, out map[int]map[addr]bool) {
-	doRcpt := func(b *rcptBlock) {
-		for _, t := range b.targets {
-			if t.reroute != nil {
-				collectTables(t.reroute, out)
-			}
-		}
-	}
-	doSrc := func(s *srcBlock) {
-		if s.implicit != nil {
-			doRcpt(s.implicit)
-			return
-		}
-		for _, it := range s.items {
-			if it.kind == "in" {
-				out[it.table] = it.keys
-			}
-			doRcpt(it.rcpt)
-		}
-	}
-	if p.implicit != nil {
-		doSrc(p.implicit)
-		return
-	}
-	for _, it := range p.items {
+	allItems(p, func(it *item, _ string) {
 		if it.kind == "in" {
 			out[it.table] = it.keys
 		}
-		doSrc(it.src)
-	}
+	})
 }
 
 // tomb replaces a case's scripted modules in maddy's process-global instance registry when the
@@ -377,6 +379,12 @@ func (sc *scenario) runEnvelope(c *rep.Case, r *rep.Reporter, rt *router, ei int
 		}
 		kinds[class+":"+featKey(vias)+fmt.Sprintf(":d%d", maxDepth)] = true
 		r.Count("rcpt_decisions_"+class, 1)
+		if sc.al.twinD && (env.rcpts[i].d < 2 || (!env.sender.null && env.sender.d < 2)) {
+			r.Count("rcpt_decisions_with_twin_domain_address", 1)
+		}
+		if sc.al.twinL && (env.rcpts[i].l < 2 || (!env.sender.null && env.sender.l < 2)) {
+			r.Count("rcpt_decisions_with_twin_local_part_address", 1)
+		}
 		disc, what := judge(expect[i], env, i, startErr, obs[i], r)
 		if disc == "" {
 			continue
@@ -403,6 +411,8 @@ func (sc *scenario) runEnvelope(c *rep.Case, r *rep.Reporter, rt *router, ei int
 			w["minimal_discrepancy"] = res.what
 			w["reduction_steps"] = res.steps
 			what = res.what + " (minimised witness; configuration in the replay file)"
+		} else if res.config != "" {
+			w["recheck_config_without_discrepancy"] = res.config
 		}
 		c.Violation("route/"+res.sig, what, w)
 	}
@@ -462,6 +472,17 @@ func matrixEvidence(r *rep.Reporter, variant int, addrRuleKind, domRuleKind, env
 	}
 }
 
+// countTwins plants the confusable-but-different class pairs (alpha_test.go) and counts them.
+func countTwins(r *rep.Reporter, al *alphabet, p *prng.R) {
+	d, l := al.addTwins(p)
+	if d {
+		r.Count("alphabets_with_twin_domains", 1)
+	}
+	if l {
+		r.Count("alphabets_with_twin_local_parts", 1)
+	}
+}
+
 func undecidedSig(u []string) string {
 	m := map[string]bool{}
 	for _, x := range u {
@@ -478,7 +499,7 @@ func TestVerif(t *testing.T) {
 	r := rep.Open("C04")
 	defer r.Close()
 
-	if punyEncode("тест") != "e1aybc" || punyEncode("bücher") != "bcher-kva" || punyEncode("例え") != "r8jz45g" {
+	if punyEncode("тест") != "e1aybc" || punyEncode("bücher") != "bcher-kva" || punyEncode("例え") != "r8jz45g" || punyEncode("faß") != "fa-hia" {
 		t.Fatalf("harness punycode encoder is wrong")
 	}
 
@@ -489,10 +510,12 @@ func TestVerif(t *testing.T) {
 		r.Run(i, fmt.Sprintf("route-%d", i), func(c *rep.Case) {
 			p := prng.New(r.Seed(), uint64(i), "c04")
 			al := genAlphabet(p)
+			countTwins(r, al, prng.New(r.Seed(), uint64(i), "c04-twins"))
 			tag := fmt.Sprintf("c04a%d", i)
 			g := newGen(p, al, tag)
 			sc := &scenario{tag: tag, al: al, g: g}
 			sc.top = g.newPipe(0)
+			g.decorate(sc.top, prng.New(r.Seed(), uint64(i), "c04-style"))
 			var und []string
 			sc.top.undecided(&und)
 			if len(und) != 0 {
@@ -501,6 +524,10 @@ func TestVerif(t *testing.T) {
 			sc.load()
 			defer sc.release()
 			r.Count("configs_generated", 1)
+			if sc.harnessErr != nil {
+				c.Inconclusive("harness could not register the top-level blocks: " + sc.harnessErr.Error())
+				return
+			}
 			if sc.loadErr != nil {
 				c.Violation("load/refused-complete-config", fmt.Sprintf("a configuration that decides every sender/recipient combination and uses only valid rules was refused: %v", sc.loadErr), map[string]any{"config": sc.text, "error": sc.loadErr.Error()})
 				c.Done("refused", false)
@@ -508,6 +535,9 @@ func TestVerif(t *testing.T) {
 			}
 			r.Count("configs_loaded", 1)
 			r.Count("scopes_with_two_modify_directives", int64(sc.splitMods))
+			for k, v := range sc.wstats {
+				r.Count(k, int64(v))
+			}
 			if i < 2 {
 				r.Sample(map[string]any{"config": sc.text})
 			}
@@ -541,6 +571,7 @@ func TestVerif(t *testing.T) {
 		r.Run(i, fmt.Sprintf("undecided-%d", j), func(c *rep.Case) {
 			p := prng.New(r.Seed(), uint64(i), "c04b")
 			al := genAlphabet(p)
+			countTwins(r, al, prng.New(r.Seed(), uint64(i), "c04-twins"))
 			tag := fmt.Sprintf("c04b%d", j)
 			plant := plants[j%len(plants)]
 			var sc *scenario
@@ -559,10 +590,20 @@ func TestVerif(t *testing.T) {
 			if sc == nil {
 				t.Fatalf("could not plant %s", plant)
 			}
+			sc.g.decorate(sc.top, prng.New(r.Seed(), uint64(i), "c04-style"))
+			und = und[:0]
+			sc.top.undecided(&und)
+			if len(und) == 0 {
+				t.Fatalf("decoration removed the planted %s", plant)
+			}
 			sc.load()
 			defer sc.release()
 			r.Count("undecided_configs_generated", 1)
 			r.Distinct("undecided_kinds", undecidedSig(und))
+			if sc.harnessErr != nil {
+				c.Inconclusive("harness could not register the top-level blocks: " + sc.harnessErr.Error())
+				return
+			}
 			if sc.loadErr == nil {
 				c.Violation("load/accepted-undecided/"+undecidedSig(und), fmt.Sprintf("configuration accepted although it leaves sender/recipient combinations without an explicit decision (%v)", und), map[string]any{"config": sc.text, "undecided": und})
 			} else {
@@ -582,6 +623,7 @@ func TestVerif(t *testing.T) {
 		r.Run(i, fmt.Sprintf("spelling-%d", j), func(c *rep.Case) {
 			p := prng.New(r.Seed(), uint64(i), "c04c")
 			al := genAlphabet(p)
+			countTwins(r, al, prng.New(r.Seed(), uint64(i), "c04-twins"))
 			tag := fmt.Sprintf("c04c%d", j)
 			g := newGen(p, al, tag)
 			g.nTargets = 4
